@@ -106,7 +106,9 @@ def jobs(s0, runnable, tier):
         out.append((_scn(n, seed=s0, runner='c18', timeout=20), {'d': 0}))
         out.append((_scn(n, 'mixed3', 'max', seed=s0, runner='c18', timeout=20), {'d': 0}))
         for f, v in registry.param_deviations(n):
-            out.append((_scn(n, seed=s0, over={f: v}, runner='c18', timeout=20), {'d': 0}))
+            out.append((_scn(n, seed=s0, over={f: v}, runner='c18', timeout=20, reconfigure=True), {'d': 0}))
+        # also a different population size / cycle budget than the instance was built with
+        out.append((_scn(n, seed=s0, cycles=3, pop_mult=1.5, runner='c18', timeout=30, reconfigure=True), {'d': 0}))
         if tier == 'thorough':
             out.append((_scn(n, seed=s0, runner='c18', timeout=60), {'d': 1, 'range': 'init'}))
     for n, f, v in runnable:
